@@ -4,5 +4,6 @@ pub mod engine;
 pub mod gen;
 pub mod mirror;
 pub mod oracle;
+pub mod train;
 
 pub use engine::{Fail, Info, Report, TestResult, Tier};
